@@ -50,3 +50,40 @@ Fixpoint resolve_all (h : holder) (l : list pskid) : option (list N) :=
   | [] => Some []
   | p :: r => match resolve h p, resolve_all h r with Some v, Some vs => Some (v :: vs) | _, _ => None end
   end.
+
+(* ---- the epoch repository behind the resolver (group/state_repo.rs) ----
+   inserts: (epoch, resumption secret) of the epochs entered since the last write, oldest first,
+   consecutive; updates: written epochs changed since; stored: (group, epoch, secret) in storage *)
+Record repo := { r_gid : N; r_inserts : list (N * N); r_updates : list (N * N); r_stored : list (N * N * N) }.
+Fixpoint position {A} (f : A -> bool) (l : list A) : option nat :=
+  match l with
+  | [] => None
+  | x :: r => if f x then Some O else option_map S (position f r)
+  end.
+Definition find_pending (r : repo) (epoch : N) : option nat := position (fun x => fst x =? epoch) (r_updates r).
+Definition stored_lookup (r : repo) (gid epoch : N) : option N :=
+  match find (fun x => (fst (fst x) =? gid) && (snd (fst x) =? epoch)) (r_stored r) with Some x => Some (snd x) | None => None end.
+
+(* the view of the resolution model: unwritten = inserts then updates *)
+Definition holder_of (r : repo) (epoch current : N) (ext : list (N * N)) : holder :=
+  {| h_gid := r_gid r; h_epoch := epoch; h_current := current; h_unwritten := r_inserts r ++ r_updates r;
+     h_stored := r_stored r; h_external := ext |}.
+(* what `resolve` does after the test for the current epoch *)
+Definition model_repo (h : holder) (gid epoch : N) : option N :=
+  match (if gid =? h_gid h then lookup2 epoch (h_unwritten h) else None) with
+  | Some s => Some s
+  | None => match find (fun x => (fst (fst x) =? gid) && (snd (fst x) =? epoch)) (h_stored h) with
+            | Some x => Some (snd x) | None => None end
+  end.
+
+(* the repository's bookkeeping: inserts are consecutive epochs; every written epoch of the own
+   group (updates, storage) is older than the first insert *)
+Fixpoint consecutive (from : N) (l : list (N * N)) : bool :=
+  match l with [] => true | x :: r => (fst x =? from) && consecutive (from + 1) r end.
+Definition repo_wf (r : repo) : bool :=
+  match r_inserts r with
+  | [] => true
+  | x :: _ => consecutive (fst x) (r_inserts r)
+              && forallb (fun u => fst u <? fst x) (r_updates r)
+              && forallb (fun s => negb (fst (fst s) =? r_gid r) || (snd (fst s) <? fst x)) (r_stored r)
+  end.
